@@ -103,7 +103,7 @@ func C13(r *core.Report) {
 		"R2 after ReadAt / io.ReadFull / Read the buffer is used (or success is returned for a caller-provided buffer) only where the read is known complete: err == nil is known, or the count is compared with the buffer length, or the buffer is sliced by the count; a check that tolerates io.EOF / io.ErrUnexpectedEOF while the count is discarded is the classic way a truncated file turns into zero bytes and then into 'not found'; " +
 		"R3 error downgrade - inside the err != nil branch of a call to storage / index / decoder code, the function must not continue, break or return success unless the branch is guarded by a not-found or end-of-file test (an I/O error must not become 'not found', an empty result or a nil object). " +
 		"R5 ErrorSlice has no Unwrap / Is / As method: errors.Is(err, ErrNotFound) on a mixed list (one index failed to read, another epoch said not found) stays false. " +
-		"R6 NewManifest writes a fresh header only under a dominating test that the file size is 0, never because parsing what is there ended in io.EOF. R7 the HTTP ReaderAt adapter reports success only when the whole buffer was filled (the check made under C17.R4). Not decided: that every truncation offset lands on a checked read (follows if R1-R3 cover all reads; the site counts are in the evidence)."
+		"R6 NewManifest writes a fresh header only under a dominating test that the file size is 0, never because parsing what is there ended in io.EOF. R7 the HTTP ReaderAt adapter reports success only when the whole buffer was filled (the check made under C17.R4). R8 no function on the compact-index lookup path ((*Bucket).Lookup, (*DB).Lookup and what they call in the package) calls a loader that ends quietly at io.EOF / ErrUnexpectedEOF and returns data derived from what it read (Bucket.Load): on a truncated index such a lookup searches a short table and answers not-found. Not decided: that every truncation offset lands on a checked read (follows if R1-R3 cover all reads; the site counts are in the evidence)."
 	r.Assumptions = []string{"io.ReaderAt contract: n < len(p) implies a non-nil error; io.ReadFull returns an error unless the buffer was filled", "bin.Decoder.Read is all-or-error (table entry)"}
 	p := r.Prog
 	fns, _, _ := c12Scope(r)
@@ -210,6 +210,7 @@ func C13(r *core.Report) {
 	r.Extra["C13_read_calls"] = nReads
 	c13Downgrade(r, scope)
 	c13ExhaustionExits(r, scope)
+	c13LookupNeverReadsThroughAnEOFTolerantLoader(r)
 	r.Floor("C13.R1", 2)
 	r.Floor("C13.R2", 15)
 	r.Floor("C13.R3", 40)
